@@ -54,7 +54,7 @@ fn oracle(c: &Case, acc: &mut Acc) -> CaseResult {
             let payload = expand(spec.key_seed, 9, *plen);
             let mut out = vec![0u8; *buf];
             let res = call("HandshakeState::write_message", || w.write_message(&payload, &mut out))
-                .map_err(|f| Fail { msg: format!("{name} message {} payload {plen} buffer {buf} (predicted {predicted}): {}", c.idx, f.msg), sig: f.sig })?;
+                .map_err(|f| Fail { msg: format!("{name} message {} payload {plen} buffer {buf} (predicted {predicted}): {}", c.idx, f.msg), sig: f.sig, setup: f.setup })?;
             let ctx = format!("{name} message {} payload {plen} buffer {buf}: predicted length {predicted} (overhead {})", c.idx, lay.overhead);
             if let Ok(n) = res {
                 ensure!(n == predicted, "{ctx}: write returned {n}");
@@ -75,7 +75,7 @@ fn oracle(c: &Case, acc: &mut Acc) -> CaseResult {
         },
         Kind::HsReadGenuine { plen, pbuf } => {
             let payload = expand(spec.key_seed, 9, *plen);
-            let msg = hs_write(w, &payload, 65535 + 16).map_err(|e| Fail::new(format!("{name}: honest write {} (payload {plen}): {e:?}", c.idx)))?;
+            let msg = hs_write(w, &payload, 65535 + 16).map_err(|e| Fail::setup(format!("{name}: honest write {} (payload {plen}): {e:?}", c.idx)))?;
             let mut out = vec![0u8; *pbuf];
             let res = call("HandshakeState::read_message", || r.read_message(&msg, &mut out))?;
             let ctx = format!("{name} message {} ({} bytes, payload {plen}) payload buffer {pbuf}", c.idx, msg.len());
@@ -96,7 +96,7 @@ fn oracle(c: &Case, acc: &mut Acc) -> CaseResult {
         },
         Kind::HsReadShort { len } => {
             let payload = expand(spec.key_seed, 9, 5);
-            let msg = hs_write(w, &payload, 65535).map_err(|e| Fail::new(format!("{name}: honest write {}: {e:?}", c.idx)))?;
+            let msg = hs_write(w, &payload, 65535).map_err(|e| Fail::setup(format!("{name}: honest write {}: {e:?}", c.idx)))?;
             let cut = &msg[..(*len).min(msg.len())];
             let mut out = vec![0u8; 65535];
             let res = call("HandshakeState::read_message", || r.read_message(cut, &mut out))?;
@@ -209,9 +209,9 @@ fn t_oracle(c: &TCase, acc: &mut Acc) -> CaseResult {
     }
     let conv = |h: snow::HandshakeState| -> Result<E, Fail> {
         if c.stateless {
-            Ok(E::S(h.into_stateless_transport_mode().map_err(|e| Fail::new(format!("{e:?}")))?))
+            Ok(E::S(h.into_stateless_transport_mode().map_err(|e| Fail::setup(format!("{e:?}")))?))
         } else {
-            Ok(E::T(h.into_transport_mode().map_err(|e| Fail::new(format!("{e:?}")))?))
+            Ok(E::T(h.into_transport_mode().map_err(|e| Fail::setup(format!("{e:?}")))?))
         }
     };
     let mut w = conv(hw)?;
@@ -239,7 +239,7 @@ fn t_oracle(c: &TCase, acc: &mut Acc) -> CaseResult {
                 E::T(t) => t_write(t, &data[..c.len - 16], c.len),
                 E::S(t) => sl_write(t, 0, &data[..c.len - 16], c.len),
             }
-            .map_err(|e| Fail::new(format!("{ctx}: genuine write failed: {e:?}")))?
+            .map_err(|e| Fail::setup(format!("{ctx}: genuine write failed: {e:?}")))?
         } else {
             data.clone()
         };
